@@ -1,7 +1,8 @@
 #!/bin/bash
 # tools/tryseed_bg.sh <patch.diff> <Cxx>...: try a seeded change WITHOUT touching /repo: a background run
 # (vp run --with-repo) applies the patch to its own snapshot of /repo's HEAD and runs the given checks
-# against that snapshot (VERIF_REPO). Results: vp runs / the run's log.
+# against that snapshot (VERIF_REPO). The snapshot's Lean build starts from a copy of /verif's build
+# products (same sources => nothing is rebuilt). Results: vp runs / the run's log.
 p=$(realpath "$1"); shift
 mkdir -p /verif/.build/trypatches; cp "$p" /verif/.build/trypatches/$$.diff
-vp run --with-repo --timeout 3h -- bash -c "git -C \$VP_RUN_REPO apply /verif/.build/trypatches/$$.diff && ./check --setup >/dev/null 2>&1; for c in $*; do VERIF_REPO=\$VP_RUN_REPO ./check \$c 2>&1 | grep -v '^KNOWN-FINDING' | cut -c1-300; done"
+vp run --with-repo --timeout 3h -- bash -c "git -C \$VP_RUN_REPO apply /verif/.build/trypatches/$$.diff && mkdir -p lean/.lake && rsync -a /verif/lean/.lake/ lean/.lake/ && ./check --setup >/dev/null 2>&1; for c in $*; do VERIF_REPO=\$VP_RUN_REPO ./check \$c 2>&1 | grep -v '^KNOWN-FINDING' | cut -c1-300; done"
